@@ -568,5 +568,88 @@ theorem mergeSetsCore_union (key : List α → Int) (G : List (List α)) (x : α
     obtain ⟨r, hr, hx1, _⟩ := (h3 x x).2 (Linked.base hg hx hx)
     exact ⟨r, hr, hx1⟩
 
+
+/-! ### the returned sets have no repeated element -/
+
+theorem nodup_unionL {a b : List α} (ha : a.Nodup) (hb : b.Nodup) : (unionL a b).Nodup := by
+  simp only [unionL]
+  refine List.nodup_append.2 ⟨ha, hb.filter _, ?_⟩
+  intro x hx y hy e
+  subst e
+  have := (List.mem_filter.1 hy).2
+  simp at this
+  exact this hx
+
+theorem absorbPass_nodup (first : List α) (rest : List (List α)) (hf : first.Nodup) (hr : ∀ s, s ∈ rest → s.Nodup) :
+    (absorbPass first rest).1.Nodup ∧ ∀ s, s ∈ (absorbPass first rest).2.1 → s.Nodup := by
+  refine ⟨?_, ?_⟩
+  · induction rest generalizing first with
+    | nil => simpa [absorbPass] using hf
+    | cons s rest ih =>
+      simp only [absorbPass]
+      split
+      · exact ih first hf (fun t ht => hr t (List.mem_cons_of_mem _ ht))
+      · exact ih _ (nodup_unionL hf (hr s List.mem_cons_self)) (fun t ht => hr t (List.mem_cons_of_mem _ ht))
+  · intro s hs
+    rcases absorbPass_rest_from first rest s hs with e | e
+    · subst e; exact List.nodup_nil
+    · exact hr s e
+
+theorem absorbLoop_nodup (n : Nat) (first : List α) (rest : List (List α)) (hf : first.Nodup)
+    (hr : ∀ s, s ∈ rest → s.Nodup) :
+    (absorbLoop n first rest).1.Nodup ∧ ∀ s, s ∈ (absorbLoop n first rest).2 → s.Nodup := by
+  induction n generalizing first rest with
+  | zero => exact ⟨hf, hr⟩
+  | succ n ih =>
+    simp only [absorbLoop]
+    have hp := absorbPass_nodup first rest hf hr
+    split
+    · exact ih _ _ hp.1 hp.2
+    · exact hp
+
+theorem mergeGo_nodup (n : Nat) (S : List (List α)) (hS : ∀ s, s ∈ S → s.Nodup) :
+    ∀ o, o ∈ mergeGo n S → o.Nodup := by
+  induction n generalizing S with
+  | zero => intro o ho; exact hS o (by simpa [mergeGo] using ho)
+  | succ n ih =>
+    cases S with
+    | nil => intro o ho; simp [mergeGo] at ho
+    | cons first rest =>
+      intro o ho
+      simp only [mergeGo] at ho
+      have hrest : ∀ s, s ∈ rest → s.Nodup := fun s hs => hS s (List.mem_cons_of_mem _ hs)
+      split at ho
+      · rcases List.mem_cons.1 ho with e | e
+        · subst e; exact hS o List.mem_cons_self
+        · exact ih rest hrest o e
+      · have hl := absorbLoop_nodup (rest.length + 1) first rest (hS first List.mem_cons_self) hrest
+        rcases List.mem_cons.1 ho with e | e
+        · subst e; exact hl.1
+        · exact ih _ hl.2 o e
+
+theorem mergeSetsCore_nodup (key : List α → Int) (G : List (List α)) :
+    ∀ r, r ∈ mergeSetsCore key G → r.Nodup := by
+  intro r hr
+  simp only [mergeSetsCore, List.mem_filter] at hr
+  refine mergeGo_nodup _ _ ?_ r hr.1
+  intro s hs
+  rw [mem_sortBy] at hs
+  obtain ⟨g, _, e⟩ := List.mem_map.1 hs
+  subst e; exact nodup_dedup g
+
+/-- every returned set contains one of the input sets (and so inherits its size) -/
+theorem mergeSetsCore_contains_input (key : List α → Int) (G : List (List α)) :
+    ∀ r, r ∈ mergeSetsCore key G → ∃ g, g ∈ G ∧ g ≠ [] ∧ ∀ x, x ∈ g → x ∈ r := by
+  intro r hr
+  obtain ⟨hdis, hne, h3⟩ := mergeSetsCore_spec key G
+  have hrne := hne r hr
+  obtain ⟨x, hx⟩ := List.exists_mem_of_ne_nil r hrne
+  obtain ⟨g, hg, hxg⟩ := (mergeSetsCore_union key G x).1 ⟨r, hr, hx⟩
+  refine ⟨g, hg, (fun e => by rw [e] at hxg; cases hxg), ?_⟩
+  intro y hy
+  obtain ⟨r', hr', hx', hy'⟩ := (h3 x y).2 (Linked.base hg hxg hy)
+  have := pairwise_disjoint_eq hdis hr hr' hx hx'
+  rw [this]; exact hy'
+
 end
 end ASV.CC
